@@ -88,3 +88,10 @@ class NextState:
     def index_calls(self, variant):
         """usize::from(action id) calls of the arm"""
         return [c for c in self.calls_in(variant) if is_usize_from_id(c)]
+
+
+def pc_calls(F, body, blocks=None):
+    """calls of ActorModel::process_commands (looked up by role) in body, optionally within blocks"""
+    import roles
+    path = roles.process_commands(F).path
+    return [c for c in body.calls if c.callee == path and (blocks is None or c.bb in blocks)]
